@@ -150,6 +150,7 @@ type Run struct {
 	Cfg        map[string]any
 	KeepTrace  bool
 	Opt        map[string]string // options from the job (engine specific switches)
+	SubRuns    []string          // enumerated sub-runs (each re-executed with Opt["sub"]=key)
 }
 
 func (r *Run) Logf(format string, a ...any) {
@@ -181,6 +182,7 @@ type Result struct {
 	Viol       *Violation
 	Cfg        map[string]any
 	HarnessErr string // infrastructure trouble: never a violation
+	SubRuns    []string
 }
 
 type HarnessError struct{ Msg string }
@@ -228,6 +230,7 @@ func execute(e *Engine, prop, tier string, seed uint64, t *Tape, opt map[string]
 		res.SimTime = r.SimTime
 		res.Nontrivial = r.Nontrivial
 		res.Cfg = r.Cfg
+		res.SubRuns = r.SubRuns
 		res.Digest = digestLines(r.Trace)
 		if r.Shape != nil {
 			res.ShapeDig = digestLines(r.Shape)
